@@ -285,6 +285,24 @@ add('C10',
     "wrong distribution inside the touched cells that keeps the sum is "
     "seen by C09/C07, not here.")
 
+add('C17',
+    "Hypothesis recursive object-graph strategy x 3 formats x 6 conversion "
+    "pairs (and the to_file/from_file methods); oracle: checker-side strict "
+    "deep equality of load(save(x)) with x (class, to_dict contents, "
+    "independent public-attribute table, arrays bit-equal with dtype and "
+    "shape, scalar value and kind)",
+    "Exploration: nested dictionaries (depth <= 4) of scalars (NaN/inf, "
+    "complex, bool, unicode, None), arrays (0-d..3-d, empty, C/F order, "
+    "seven dtypes) and all 12 registered classes in every mapping, "
+    "anisotropy case, coordinate format, gridding mode, with computed "
+    "simulations (fields, misfit, gradient) are saved, loaded and "
+    "converted; any difference is a violation attributed to format and "
+    "attribute.",
+    "Trusted: the checker's own equality and attribute table in "
+    "vp/checks/c17_io.py; emg3d's __eq__ is not used. Excluded (documented "
+    "limitations, counted): reserved key tokens, the string 'NoneType', "
+    "boolean arrays; memory layout and sign of zero are not compared.")
+
 NOT_BUILT = "check not built yet (see DESIGN.md section 3 for the plan)"
 
 
